@@ -23,13 +23,29 @@ def workload(chk):
         items.append((os.path.basename(e[0]), corpus.cmdline(e)))
     for i in range(chk.pick(40, 200)):
         rng = chk.rng("gen", i)
-        k = rng.choice(["c", "cxx", "types", "static", "abi", "fallback"])
+        k = rng.choice(["c", "cxx", "types", "static", "abi", "fallback", "fwd"])
         if k == "c":
             p = write(os.path.join(d, "g%d.h" % i), gen_funcs.gen_c(rng, rng.randint(10, 40))[0])
             fl = [p] + rng.choice([[], ["--merge-extern-blocks"], ["--sort-semantically"], ["--with-derive-hash", "--with-derive-eq"]])
         elif k == "cxx":
             p = write(os.path.join(d, "g%d.hpp" % i), gen_funcs.gen_cxx(rng, rng.randint(8, 20)))
             fl = [p, "--enable-cxx-namespaces"]
+        elif k == "fwd":
+            # types that are only ever forward-declared (never defined), several per namespace, reached through fields, references, arrays of
+            # pointers and function signatures: their place in the output must not depend on addresses or hash order
+            parts = []
+            for nsk in range(rng.randint(1, 3)):
+                undef = ["Fwd%d_%d_%d" % (i, nsk, q) for q in range(rng.randint(2, 6))]
+                body = "".join("struct %s;\n" % u for u in undef if rng.random() < 0.5)
+                for sk in range(rng.randint(1, 3)):
+                    mem = []
+                    for q, u in enumerate(rng.sample(undef, rng.randint(1, len(undef)))):
+                        mem.append(rng.choice(["struct %s *p%d;", "struct %s &r%d;", "struct %s *a%d[3];", "struct %s **pp%d;"]) % (u, q))
+                    body += "struct User%d_%d_%d { %s int z; };\n" % (i, nsk, sk, " ".join(mem))
+                body += "struct %s *fwd_fn%d_%d(struct %s *a);\n" % (undef[0], i, nsk, undef[-1])
+                parts.append("namespace fns%d_%d { %s %s }\n" % (i, nsk, body, ("namespace deep { struct %s; struct DeepUser%d { %s *d; struct Only%d_%d *o; }; }" % (undef[0], i, undef[0], i, nsk)) if rng.random() < 0.5 else ""))
+            p = write(os.path.join(d, "g%d.hpp" % i), "".join(parts))
+            fl = [p, "--enable-cxx-namespaces"] + rng.choice([[], ["--sort-semantically"], ["--with-derive-default"], ["--no-layout-tests"]])
         elif k == "fallback":
             # function-like macro wrappers need --clang-macro-fallback, which evaluates them through scratch files (a source file and a
             # precompiled header) next to the build: concurrent generations must not share them
